@@ -95,3 +95,67 @@ Section AMap.
     now rewrite N.eqb_refl in H.
   Qed.
 End AMap.
+
+(* ---------- more facts about association maps ---------- *)
+Lemma nodup_snoc (l : list N) k : NoDup l -> ~ In k l -> NoDup (l ++ [k]).
+Proof.
+  induction l as [|a l IH]; simpl; intros H Hn.
+  - constructor; [intros [] | constructor].
+  - inversion H; subst. constructor.
+    + rewrite in_app_iff. simpl. intros [?|[?|[]]]; [contradiction|]. apply Hn. now left.
+    + apply IH; [assumption|]. intro; apply Hn; now right.
+Qed.
+
+Lemma existsb_eqb_in' p (l : list N) : existsb (N.eqb p) l = true <-> In p l.
+Proof.
+  rewrite existsb_exists. split.
+  - intros [x [Hx E]]. apply N.eqb_eq in E. now subst.
+  - intro H. exists p. split; [exact H | apply N.eqb_refl].
+Qed.
+
+Lemma keys_aput {V} k (v : V) m :
+  map fst (aput k v m) = if existsb (N.eqb k) (map fst m) then map fst m else map fst m ++ [k].
+Proof.
+  induction m as [|[q w] m IH]; simpl; [reflexivity|].
+  destruct (N.eqb_spec k q); simpl; [reflexivity|]. rewrite IH.
+  destruct (existsb (N.eqb k) (map fst m)); reflexivity.
+Qed.
+
+Lemma nodup_aput {V} k (v : V) m : NoDup (map fst m) -> NoDup (map fst (aput k v m)).
+Proof.
+  intro H. rewrite keys_aput. destruct (existsb (N.eqb k) (map fst m)) eqn:E; [exact H|].
+  apply nodup_snoc; [exact H|]. intro Hin. apply existsb_eqb_in' in Hin. congruence.
+Qed.
+
+Lemma nodup_adel {V} k (m : list (N * V)) : NoDup (map fst m) -> NoDup (map fst (adel k m)).
+Proof.
+  unfold adel. induction m as [|[q w] m IH]; simpl; intro H; [constructor|].
+  inversion H; subst. destruct (N.eqb q k); simpl; [now apply IH|].
+  constructor; [|now apply IH]. intro Hin. apply in_map_iff in Hin as (z & Ez & Hz).
+  apply filter_In in Hz as [Hz _]. match goal with H : ~ In _ _ |- _ => apply H end.
+  rewrite <- Ez. now apply in_map.
+Qed.
+
+Lemma aget_in {V} k (v : V) m : aget k m = Some v -> In (k, v) m.
+Proof.
+  induction m as [|[q w] m IH]; simpl; [discriminate|].
+  destruct (N.eqb_spec k q); intro H; [inversion H; subst; now left | right; now apply IH].
+Qed.
+
+Lemma in_aget {V} k (v : V) m : NoDup (map fst m) -> In (k, v) m -> aget k m = Some v.
+Proof.
+  induction m as [|[q w] m IH]; simpl; intros Hn Hin; [contradiction|].
+  inversion Hn; subst. destruct Hin as [E|Hin].
+  - inversion E; subst. now rewrite N.eqb_refl.
+  - destruct (N.eqb_spec k q) as [->|]; [|now apply IH].
+    exfalso. match goal with H : ~ In _ _ |- _ => apply H end. change q with (fst (q, v)). now apply in_map.
+Qed.
+
+Lemma NoDup_app_iff_disj {A} (a b : list A) :
+  NoDup a -> NoDup b -> (forall x, In x a -> In x b -> False) -> NoDup (a ++ b).
+Proof.
+  induction a as [|x a IH]; simpl; intros Ha Hb Hd; [exact Hb|].
+  inversion Ha; subst. constructor.
+  - rewrite in_app_iff. intros [H|H]; [contradiction | apply (Hd x); auto].
+  - apply IH; auto. intros y Hy1 Hy2. apply (Hd y); auto.
+Qed.
